@@ -74,32 +74,43 @@ Theorem compat_at_any_depth :          (* ... inside any child of any node *)
   Compat constrains (Node nm v (a ++ c :: b)%list) (Node nm v (a ++ c' :: b)%list).
 Proof. exact (compat_inside_proved constrains). Qed.
 
-(* ---- 2b. a new type in a NEW package ----
-   Full statement ("a version that only appends new types ... reports no incompatibility", for a type whose
-   package is new as well): forall o n, supertreeb o n = true (only additions) where the additions are a type
-   under Types and its package under Packages -> check_compat o n = [].
-   Refuted by the current table (finding C18-PKG): Packages is AppendOnly|OrderChangeOnly, and the
-   OrderChangeOnly block of checkConstraint reports NodeModified for any appended or inserted child; moreover the
-   children of Packages come from a Go map, so the same schemas give one or two errors depending on the order: *)
+(* ---- 2b. a new type in a NEW package ("a version that only appends new types") ----
+   Packages is insert-only since fix 73ee9ff73 (finding C18-PKG): a new package node is a compatible
+   change wherever it stands among the children of AppDef/Packages (buildPackagesNode ranges over a Go
+   map, so its position is arbitrary), and a removed package is still reported. *)
 Lemma table_packages :
-  let c := find_constraint "Packages" constrains in allows_append c = false /\ allows_insert c = false.
+  let c := find_constraint "Packages" constrains in allows_insert c = true /\ reports_removal c = true.
 Proof. vm_compute. split; reflexivity. Qed.
 
-Theorem new_package_type_silent_refuted :
-  exists o n n',
-    wfb o = true /\ wfb n = true /\ supertreeb o n = true /\
-    perm_b (pkgs n') (pkgs n) = true /\ n' = set_pkgs n (pkgs n') /\
-    check_compat constrains o n = [mkerr (find_constraint "Packages" constrains) ["AppDef"; "Packages"] NodeModified] /\
-    check_compat constrains o n' = [mkerr (find_constraint "Packages" constrains) ["AppDef"; "Packages"] NodeInserted;
-                                    mkerr (find_constraint "Packages" constrains) ["AppDef"; "Packages"] NodeModified].
-Proof.
-  exists (Node "AppDef" VNil [Node "Types" VNil [Node "app.T" VNil []]; Node "Packages" VNil [Node "test.com/app" (VStr "app") []]]),
-         (Node "AppDef" VNil [Node "Types" VNil [Node "app.T" VNil []; Node "lib.D" VNil []];
-                              Node "Packages" VNil [Node "test.com/app" (VStr "app") []; Node "test.com/lib" (VStr "lib") []]]),
-         (Node "AppDef" VNil [Node "Types" VNil [Node "app.T" VNil []; Node "lib.D" VNil []];
-                              Node "Packages" VNil [Node "test.com/lib" (VStr "lib") []; Node "test.com/app" (VStr "app") []]]).
-  vm_compute. repeat split.
-Qed.
+Theorem insert_package_is_compat :     (* a new package node, at any index *)
+  forall v a b x, Compat constrains (Node "Packages" v (a ++ b)%list) (Node "Packages" v (a ++ x :: b)%list).
+Proof. exact (fun v a b x => compat_insert_proved constrains "Packages" v a b x (proj1 table_packages)). Qed.
+
+(* the table before the fix (Packages: AppendOnly|OrderChangeOnly), kept as the witness of the finding:
+   under it the same pair of schemas (a type and its new package added, nothing else) was reported, with one
+   or two errors depending on where the map order put the new package *)
+Definition constrains_before_73ee9ff73 : ctable :=
+  map (fun r => if String.eqb (fst r) "Packages" then (fst r, N.lor compat_c_append_only compat_c_order_change_only) else r) constrains.
+
+Definition ex_pkg_old : tree :=
+  Node "AppDef" VNil [Node "Types" VNil [Node "app.T" VNil []]; Node "Packages" VNil [Node "test.com/app" (VStr "app") []]].
+Definition ex_pkg_new (lib_first : bool) : tree :=
+  Node "AppDef" VNil [Node "Types" VNil [Node "app.T" VNil []; Node "lib.D" VNil []];
+                      Node "Packages" VNil (if lib_first then [Node "test.com/lib" (VStr "lib") []; Node "test.com/app" (VStr "app") []]
+                                            else [Node "test.com/app" (VStr "app") []; Node "test.com/lib" (VStr "lib") []])].
+
+Theorem new_package_type_silent_refuted :   (* for the old table *)
+  let cs := constrains_before_73ee9ff73 in
+  wfb ex_pkg_old = true /\ wfb (ex_pkg_new false) = true /\ supertreeb ex_pkg_old (ex_pkg_new false) = true /\
+  perm_b (pkgs (ex_pkg_new true)) (pkgs (ex_pkg_new false)) = true /\
+  check_compat cs ex_pkg_old (ex_pkg_new false) = [mkerr 18 ["AppDef"; "Packages"] NodeModified] /\
+  check_compat cs ex_pkg_old (ex_pkg_new true) = [mkerr 18 ["AppDef"; "Packages"] NodeInserted; mkerr 18 ["AppDef"; "Packages"] NodeModified].
+Proof. vm_compute. repeat split. Qed.
+
+(* with the current table both orders are Compat and silent *)
+Example new_package_type_silent_nonvacuous :
+  forall b, Compat constrains ex_pkg_old (ex_pkg_new b) /\ check_compat constrains ex_pkg_old (ex_pkg_new b) = [].
+Proof. intros [|]; (split; [apply compatb_sound; vm_compute; reflexivity | vm_compute; reflexivity]). Qed.
 
 (* ---- 3. removals: a child present in old and absent in new, under a node that exists in both
    trees, is reported at the child's path whatever else changed - for every node whose constraint
@@ -143,7 +154,7 @@ Proof. exact (removal_reported_proved constrains). Qed.
 
 (* ... which holds for fields (tables, view values), types (application and workspace level), key fields and containers *)
 Theorem removal_reported_fields_types_keys :
-  forall nm, In nm ["Fields"; "Types"; "PartKeyFields"; "ClustColsFields"; "Containers"] ->
+  forall nm, In nm ["Fields"; "Types"; "PartKeyFields"; "ClustColsFields"; "Containers"; "Packages"] ->
   reports_removal (find_constraint nm constrains) = true.
 Proof. intros nm H. cbn in H. repeat (destruct H as [<- | H]; [vm_compute; reflexivity|]). contradiction. Qed.
 
@@ -284,6 +295,7 @@ Print Assumptions compatible_changes_silent.
 Print Assumptions append_fields_is_compat.
 Print Assumptions insert_type_is_compat.
 Print Assumptions compat_at_any_depth.
+Print Assumptions insert_package_is_compat.
 Print Assumptions new_package_type_silent_refuted.
 Print Assumptions removal_reported.
 Print Assumptions removal_reported_fields_types_keys.
